@@ -956,8 +956,19 @@ static void run_history(Tape &t, Ctx &cx, uint64_t fail_at, int mode, uint64_t *
         case 9: op_setn(r, b, t); break;
         case 10: op_setm(r, b, t); break;
         case 11: op_sort(r, b); break;
-        case 12: op_push(r, b, t, true, 1); break;
-        case 13: op_push(r, b, t, false, 1); break;
+        case 12: case 13:
+            if (b.m.size() <= 1 && (r.opno & 1))
+            {
+                // the insertion-sort steps on a container of no or one element, without a push before: nothing to move
+                g_key_at = kpos(b);
+                if (b.is_buf) { op == 12 ? a_buf_sort_fore(b.b, cmp_first) : a_buf_sort_back(b.b, cmp_first); }
+                else { op == 12 ? a_vec_sort_fore(b.v, cmp_first) : a_vec_sort_back(b.v, cmp_first); }
+                r.cx.log("%s sort_%s on %zu element(s)\n", b.is_buf ? "buf" : "vec", op == 12 ? "fore" : "back", b.m.size());
+                verify(r, b, "sort_fore / sort_back on at most one element");
+                break;
+            }
+            op_push(r, b, t, op == 12, 1);
+            break;
         case 14: op_push_sort(r, b, t); break;
         case 15: op_search(r, b, t); break;
         case 16: {
